@@ -140,7 +140,8 @@ def dpopParse (supported : List String) (typ : String) (E : Env) (claimsOK : Boo
       else match E.embeddedKey 0 with
         | none => .reject
         | some k =>
-          if !E.verifies k s.alg 0 then .reject           -- jwt.ParseString(s, WithKey(alg, jwk))
+          if !E.fits k s.alg then .reject                 -- jwx.AlgorithmFitsKey(alg, jwk)
+          else if !E.verifies k s.alg 0 then .reject      -- jwt.ParseString(s, WithKey(alg, jwk))
           else if !claimsOK then .reject                  -- iat, htu, htm, jti present / bounded
           else .accept [{ key := k, src := .embedded 0, alg := s.alg, idx := 0, overSigningInput := true }]
     | _ => .reject
